@@ -33,7 +33,7 @@ func mustParse(sql string) sqlparser.Statement {
 // runSplice: every distinct expression sub-tree of every seed into every expression slot of
 // every seed. quick: one representative per sub-tree shape; thorough: every textually
 // distinct sub-tree.
-func runSplice(r *ev.Run, col *sqlgen.Collector, seeds []string) {
+func runSplice(r *ev.Run, expired func() bool, col *sqlgen.Collector, seeds []string) {
 	d := sqlgen.Current
 	// collect distinct donor sub-trees (single threaded, deterministic)
 	var subs []subRef
@@ -89,7 +89,7 @@ func runSplice(r *ev.Run, col *sqlgen.Collector, seeds []string) {
 	col.Info("splice_pairs", totalSlots*len(subs))
 
 	tl := newTally()
-	done := par.Do(len(seeds), r.Expired, func(hi int) {
+	done := par.Do(len(seeds), expired, func(hi int) {
 		host := mustParse(seeds[hi])
 		slots := sqlgen.Slots(host)
 		col.Transitions(1)
@@ -110,14 +110,14 @@ func runSplice(r *ev.Run, col *sqlgen.Collector, seeds []string) {
 					tl.add(out)
 				}
 			}
-			if r.Expired() {
+			if expired() {
 				return
 			}
 		}
 	})
 	acc := tl.flush(col, "splice")
 	col.States(int(acc))
-	if done < len(seeds) || r.Expired() {
+	if done < len(seeds) || expired() {
 		col.Capped(fmt.Sprintf("wall budget: splicing stopped after %d of %d host statements", done, len(seeds)))
 	}
 	if len(seeds) > 0 && len(subs) > 0 {
